@@ -399,7 +399,7 @@ func genC12Events(t *rapid.T, n int, npeers int) []c12Event {
 		k := rapid.SampledFrom([]string{"join", "accept", "accept", "accept", "leave", "success", "failure", "return", "return", "cleanup"}).Draw(t, fmt.Sprintf("ev%d", i))
 		e := c12Event{Kind: k, Peer: rapid.SampledFrom(c12Peers[:npeers]).Draw(t, fmt.Sprintf("peer%d", i)), Inst: rapid.IntRange(0, 3).Draw(t, fmt.Sprintf("inst%d", i))}
 		if k == "cleanup" {
-			e.Adv = rapid.SampledFrom([]time.Duration{time.Minute, 11 * time.Minute}).Draw(t, fmt.Sprintf("adv%d", i))
+			e.Adv = rapid.SampledFrom([]time.Duration{time.Minute, 6 * time.Minute, 6 * time.Minute, 11 * time.Minute}).Draw(t, fmt.Sprintf("adv%d", i))
 		}
 		evs = append(evs, e)
 	}
